@@ -163,12 +163,17 @@ fn build_builder(path: String, field: &Field) -> Result<ArrayBuilder> {
             A::Time64(TimeBuilder::new(path, *unit, field.nullable))
         }
         T::Duration(unit) => A::Duration(DurationBuilder::new(path, *unit, field.nullable)),
-        T::Decimal128(precision, scale) => A::Decimal128(DecimalBuilder::new(
-            path,
-            *precision,
-            *scale,
-            field.nullable,
-        )),
+        T::Decimal128(precision, scale) => {
+            if !(1..=38).contains(precision) {
+                fail!(in ctx, "Decimal128 only supports precisions between 1 and 38");
+            }
+            A::Decimal128(DecimalBuilder::new(
+                path,
+                *precision,
+                *scale,
+                field.nullable,
+            ))
+        }
         T::Utf8 => A::Utf8(Utf8Builder::new(path, field.nullable)),
         T::LargeUtf8 => A::LargeUtf8(Utf8Builder::new(path, field.nullable)),
         T::Utf8View => A::Utf8View(Utf8Builder::new(path, field.nullable)),
